@@ -83,7 +83,7 @@ def jobs(ctx):
 def run(ctx):
     r = ctx.rng
     ctx.rule = ('kernel: views in use + all origins of all areas <= 7x7 (Props/C19.v); sweep: origins of areas 8..12 (thorough: ALL origins of all '
-                'areas up to 11x11, larger samples), shifted areas, thin areas; compute_rays_fancy and compute_rays, cached and uncached; '
+                'areas up to 11x11, larger samples), shifted areas, thin areas; compute_rays_fancy and compute_rays, cached and uncached; unobstructed ray-traced views of fresh grids and of Grid objects looked at before their doors were opened in place; '
                 'non-trivial = a fan with more than one cell')
     js = jobs(ctx)
     reqs, metas = [], []
@@ -133,6 +133,39 @@ def run(ctx):
                 hidden = [(int(y), int(x)) for y, x in zip(*(~shown).nonzero())][:5]
                 ctx.violation(f'an unobstructed ray-traced {area.height}x{area.width} view from {(pos.y, pos.x)} does not show everything: hidden {hidden}',
                               {'area': (area.ymin, area.ymax, area.xmin, area.xmax), 'origin': (pos.y, pos.x)})
+            # the stochastic variant shows an unobstructed view for EVERY outcome of the generator, the largest draws (1 - 2^-53) included
+            from vt.rngproxy import ScriptedRng, TWO53
+            if area.height * area.width <= 169:
+                shown = vf.stochastic_raytracing(empty, pos, rng=ScriptedRng([[TWO53 - 1] * (area.height * area.width)]))
+                if not bool(shown.all()):
+                    hidden = [(int(y), int(x)) for y, x in zip(*(~shown).nonzero())][:5]
+                    ctx.violation(f'an unobstructed stochastic ray-traced {area.height}x{area.width} view from {(pos.y, pos.x)} hides {hidden} when every draw is the largest possible one',
+                                  {'area': (area.ymin, area.ymax, area.xmin, area.xmax), 'origin': (pos.y, pos.x), 'draws': '1 - 2^-53 everywhere'})
+    # ... whatever was asked of the same Grid object before: a view obstructed by shut doors is looked at, the doors are opened the way
+    # actuate_door opens them (the door's own attribute; no cell is assigned), and the now unobstructed view must show everything
+    np_ = __import__('numpy')
+    DOOR = gen.TY['Door']
+    done = 0
+    for area, pos in order:
+        if done >= (60 if ctx.tier == 'quick' else 600):
+            break
+        if (area.ymin, area.xmin) == (0, 0) and 2 <= area.height * area.width <= 169:
+            done += 1
+            cg = tuple(tuple(gen.FLOOR if (y, x) == (pos.y, pos.x) or r.random() < 0.7 else (DOOR, r.choice([1, 2]), r.randrange(1, 5), None)
+                             for x in range(area.width)) for y in range(area.height))
+            g = wire.mkgrid(cg)
+            first = vf.raytracing(g, pos)
+            vf.stochastic_raytracing(g, pos, rng=np_.random.default_rng(r.randrange(1 << 30)))
+            for p_ in g.area.positions():
+                if hasattr(g[p_], 'state') and hasattr(type(g[p_]), 'Status'):
+                    g[p_].state = type(g[p_]).Status.OPEN
+            ctx.case(('unobstructed-after-history', area.height, area.width, pos.y, pos.x), not bool(first.all()), None)
+            ctx.count('unobstructed view', 'after a history on the same Grid object')
+            for nm, shown in (('raytracing', vf.raytracing(g, pos)), ('stochastic_raytracing', vf.stochastic_raytracing(g, pos, rng=np_.random.default_rng(r.randrange(1 << 30))))):
+                if not bool(shown.all()):
+                    hidden = [(int(y), int(x)) for y, x in zip(*(~shown).nonzero())][:5]
+                    ctx.violation(f'{nm}: an unobstructed {area.height}x{area.width} view from {(pos.y, pos.x)} hides {hidden} after the same Grid object was looked at with its doors shut',
+                                  {'area': (area.ymin, area.ymax, area.xmin, area.xmax), 'origin': (pos.y, pos.x), 'history': 'look, open every door in place, look again'})
     for area, pos in order[:40]:
         if (area.ymin, area.xmin) == (0, 0) and area.height * area.width <= 169:
             g = wire.mkgrid(gen.rand_grid(r, area.height, area.width, floor_bias=0.7))
